@@ -75,65 +75,65 @@ Qed.
 
 
 (* ---------- the end of the loop body ---------- *)
-Ltac fr_split num q cont cc0 st0 br b dirty :=
+Ltac fr_split num q cont cc0 st0 br b dirty nr0 :=
   unfold finish_request; cbv zeta;
-  destruct (h_noresp (req_hstate E num q cont st0)) eqn:Hnr,
-           (h_hijack (req_hstate E num q cont st0)) eqn:Hhj,
-           (close_decision cfg E num q cc0 (req_hstate E num q cont st0)) eqn:Hcc,
+  destruct (h_noresp (req_hstate E num q cont st0 nr0)) eqn:Hnr,
+           (h_hijack (req_hstate E num q cont st0 nr0)) eqn:Hhj,
+           (close_decision cfg E num q cc0 (req_hstate E num q cont st0 nr0)) eqn:Hcc,
            cont, br, (isnil b) eqn:Hb, (reduce_mem cfg) eqn:Hrm, (stop_at_idle E num) eqn:Hst, dirty.
 
-Notation FR num q cont cc0 st0 br fbr b cs t off dirty :=
-  (finish_request cfg E num q cont cc0 st0 br fbr b cs t off dirty).
+Notation FR num q cont cc0 st0 br fbr b cs t off dirty nr0 :=
+  (finish_request cfg E num q cont cc0 st0 br fbr b cs t off dirty nr0).
 
-Lemma fr_next num q cont cc0 st0 br fbr b cs t off dirty s' :
+Lemma fr_next num q cont cc0 st0 br fbr b cs t off dirty nr0 s' :
   (cont = false -> cc0 = true) ->
-  snd (FR num q cont cc0 st0 br fbr b cs t off dirty) = Next s' ->
+  snd (FR num q cont cc0 st0 br fbr b cs t off dirty nr0) = Next s' ->
   l_num s' = num /\ l_br s' = br /\ l_fbr s' = fbr /\ l_rd s' = {| buf := b; chunks := cs; tl := t |} /\ l_off s' = off /\
-  l_dirty s' = unflushed_from dirty (fst (FR num q cont cc0 st0 br fbr b cs t off dirty)) /\
-  cont = true.
+  l_dirty s' = unflushed_from dirty (fst (FR num q cont cc0 st0 br fbr b cs t off dirty nr0)) /\
+  cont = true /\ l_noresp s' = false.
 Proof.
   intros Hc0.
-  assert (Hc : cont = false -> close_decision cfg E num q cc0 (req_hstate E num q cont st0) = true).
+  assert (Hc : cont = false -> close_decision cfg E num q cc0 (req_hstate E num q cont st0 nr0) = true).
   { intros Hx. rewrite (Hc0 Hx). reflexivity. }
-  fr_split num q cont cc0 st0 br b dirty; cbn; intros H; try discriminate;
+  fr_split num q cont cc0 st0 br b dirty nr0; cbn; intros H; try discriminate;
     try (specialize (Hc eq_refl); discriminate); injection H as <-; cbn; auto 10.
 Qed.
 
-Lemma fr_sts num q cont cc0 st0 br fbr b cs t off dirty :
-  match snd (FR num q cont cc0 st0 br fbr b cs t off dirty) with
-  | Next _ => sts (fst (FR num q cont cc0 st0 br fbr b cs t off dirty)) = [StIdle]
-  | ExitHijack => sts (fst (FR num q cont cc0 st0 br fbr b cs t off dirty)) = []
-  | Exit => sts (fst (FR num q cont cc0 st0 br fbr b cs t off dirty)) = [] \/
-            sts (fst (FR num q cont cc0 st0 br fbr b cs t off dirty)) = [StIdle]
+Lemma fr_sts num q cont cc0 st0 br fbr b cs t off dirty nr0 :
+  match snd (FR num q cont cc0 st0 br fbr b cs t off dirty nr0) with
+  | Next _ => sts (fst (FR num q cont cc0 st0 br fbr b cs t off dirty nr0)) = [StIdle]
+  | ExitHijack => sts (fst (FR num q cont cc0 st0 br fbr b cs t off dirty nr0)) = []
+  | Exit => sts (fst (FR num q cont cc0 st0 br fbr b cs t off dirty nr0)) = [] \/
+            sts (fst (FR num q cont cc0 st0 br fbr b cs t off dirty nr0)) = [StIdle]
   end.
 Proof.
-  fr_split num q cont cc0 st0 br b dirty; cbn; auto.
+  fr_split num q cont cc0 st0 br b dirty nr0; cbn; auto.
 Qed.
 
 Definition no_active (l : list event) : bool :=
   forallb (fun e => match e with St StActive => false | _ => true end) l.
 
-Lemma fr_no_active num q cont cc0 st0 br fbr b cs t off dirty :
-  no_active (fst (FR num q cont cc0 st0 br fbr b cs t off dirty)) = true.
+Lemma fr_no_active num q cont cc0 st0 br fbr b cs t off dirty nr0 :
+  no_active (fst (FR num q cont cc0 st0 br fbr b cs t off dirty nr0)) = true.
 Proof.
-  fr_split num q cont cc0 st0 br b dirty; cbn; auto.
+  fr_split num q cont cc0 st0 br b dirty nr0; cbn; auto.
 Qed.
 
 (* hijack: nothing is left unflushed; the response (unless suppressed) precedes; the reader handed over holds b, cs *)
-Lemma fr_hijack num q cont cc0 st0 br fbr b cs t off dirty :
-  snd (FR num q cont cc0 st0 br fbr b cs t off dirty) = ExitHijack ->
-  let pre := removelast (fst (FR num q cont cc0 st0 br fbr b cs t off dirty)) in
-  fst (FR num q cont cc0 st0 br fbr b cs t off dirty) = pre ++ [HijackEv (hj_src_of br fbr) b cs] /\
+Lemma fr_hijack num q cont cc0 st0 br fbr b cs t off dirty nr0 :
+  snd (FR num q cont cc0 st0 br fbr b cs t off dirty nr0) = ExitHijack ->
+  let pre := removelast (fst (FR num q cont cc0 st0 br fbr b cs t off dirty nr0)) in
+  fst (FR num q cont cc0 st0 br fbr b cs t off dirty nr0) = pre ++ [HijackEv (hj_src_of br fbr) b cs] /\
   unflushed_from dirty pre = false /\
   forallb (fun e => negb (is_hijack_ev e)) pre = true /\
-  cont = true /\ h_hijack (req_hstate E num q cont st0) = true /\
-  (h_noresp (req_hstate E num q cont st0) = false ->
-     In (Resp (resp_of num q cont (req_hstate E num q cont st0) false)) pre) /\
+  cont = true /\ h_hijack (req_hstate E num q cont st0 nr0) = true /\
+  (h_noresp (req_hstate E num q cont st0 nr0) = false ->
+     In (Resp (resp_of num q cont (req_hstate E num q cont st0 nr0) false)) pre) /\
   In (Dispatch num q) pre.
 Proof.
-  assert (Hc : cont = false -> h_hijack (req_hstate E num q cont st0) = false).
+  assert (Hc : cont = false -> h_hijack (req_hstate E num q cont st0 nr0) = false).
   { intros ->. reflexivity. }
-  fr_split num q cont cc0 st0 br b dirty; cbn; intros H; try discriminate;
+  fr_split num q cont cc0 st0 br b dirty nr0; cbn; intros H; try discriminate;
     try (specialize (Hc eq_refl); discriminate); repeat split; auto; try discriminate.
 Qed.
 
@@ -181,8 +181,8 @@ Definition iter_tail (s : lst) (S : bytes) (fbr0 : bool) (d0 : bool) (mid tailev
   (r = Exit /\ mid = [] /\ tailev = if d0 then [Drop] else [])
   \/ (r = Exit /\ exists e, tailev = [Resp (err_resp e); Flush])
   \/ exists q cont cc0 st0 br fbr b cs off,
-       tailev = fst (FR (l_num s + 1)%N q cont cc0 st0 br fbr b cs (tl (l_rd s)) off (unflushed_from d0 mid)) /\
-       r = snd (FR (l_num s + 1)%N q cont cc0 st0 br fbr b cs (tl (l_rd s)) off (unflushed_from d0 mid)) /\
+       tailev = fst (FR (l_num s + 1)%N q cont cc0 st0 br fbr b cs (tl (l_rd s)) off (unflushed_from d0 mid) (l_noresp s)) /\
+       r = snd (FR (l_num s + 1)%N q cont cc0 st0 br fbr b cs (tl (l_rd s)) off (unflushed_from d0 mid) (l_noresp s)) /\
        (cont = false -> cc0 = true) /\ (fbr = true -> fbr0 = true) /\ (cont = true -> st0 = StatusOK /\ cc0 = false) /\
        (cont = true -> exists k, framed F S q k /\ b ++ concat cs = skipn k S /\ 0 < k <= length S /\
                                  off = l_off s + k /\ (br = false -> b = [])).
@@ -199,7 +199,7 @@ Proof.
   assert (Hbody : forall b3 bn b4 cs4 fbr0 d evs0 r0 mid,
             read_body F q b3 cs1 = RbOk bn b4 cs4 -> b3 = b2 ->
             (let '(br2, fbr2, b6) := release_rule cfg (skipn bn b4) fbr0 in
-             finish_request cfg E (l_num s + 1)%N q true false StatusOK br2 fbr2 b6 cs4 (tl (l_rd s)) (l_off s + hn + bn) d) = (evs0, r0) ->
+             finish_request cfg E (l_num s + 1)%N q true false StatusOK br2 fbr2 b6 cs4 (tl (l_rd s)) (l_off s + hn + bn) d (l_noresp s)) = (evs0, r0) ->
             d = unflushed_from dirty mid -> (fbr0 = true -> fbr = true) ->
             iter_tail s S fbr dirty mid evs0 r0).
   { intros b3 bn b4 cs4 fbr0 d evs0 r0 mid Hrb -> Hfr Hd Hfb.
@@ -225,8 +225,8 @@ Proof.
       match read_body F q b2 cs1 with
       | RbOk bn b4 cs4 =>
           let '(br2, fbr2, b6) := release_rule cfg (skipn bn b4) (br && fbr') in
-          ([Resp continue_resp; Flush] ++ fst (finish_request cfg E (l_num s + 1)%N q true false StatusOK br2 fbr2 b6 cs4 (tl (l_rd s)) (l_off s + hn + bn) false),
-           snd (finish_request cfg E (l_num s + 1)%N q true false StatusOK br2 fbr2 b6 cs4 (tl (l_rd s)) (l_off s + hn + bn) false))
+          ([Resp continue_resp; Flush] ++ fst (finish_request cfg E (l_num s + 1)%N q true false StatusOK br2 fbr2 b6 cs4 (tl (l_rd s)) (l_off s + hn + bn) false (l_noresp s)),
+           snd (finish_request cfg E (l_num s + 1)%N q true false StatusOK br2 fbr2 b6 cs4 (tl (l_rd s)) (l_off s + hn + bn) false (l_noresp s)))
       | RbErr e => ([Resp continue_resp; Flush] ++ fst (error_exit e), Exit)
       | RbEnd b' => ([Resp continue_resp; Flush] ++ fst (error_exit (match body_end F q b' (tl (l_rd s)) with Some e => e | None => EcOther end)), Exit)
       end = (evs0, r0) ->
@@ -243,7 +243,7 @@ Proof.
       - intros H; injection H as <- <-. exists [Resp continue_resp; Flush]. eexists. split; [reflexivity|]. split; [auto|].
         right. left. split; auto. eexists; reflexivity. }
     assert (Hrej : forall st evs0 r0,
-      finish_request cfg E (l_num s + 1)%N q false true st br fbr' [] cs1 (tl (l_rd s)) (l_off s + hn) dirty = (evs0, r0) ->
+      finish_request cfg E (l_num s + 1)%N q false true st br fbr' [] cs1 (tl (l_rd s)) (l_off s + hn) dirty (l_noresp s) = (evs0, r0) ->
       exists mid tailev, evs0 = mid ++ tailev /\ (mid = [] \/ mid = [Resp continue_resp; Flush]) /\ iter_tail s S fbr dirty mid tailev r0).
     { intros st evs0 r0 Hfr. exists [], evs0. split; [reflexivity|]. split; [auto|].
       right. right. exists q, false, true, st, br, fbr', [], cs1, (l_off s + hn).
@@ -301,7 +301,7 @@ Proof.
     + exists fl, [], (if unflushed_from (l_dirty s) fl then [Drop] else []). repeat split; auto. left. auto.
 Qed.
 
-Definition linv (s : lst) : Prop := l_br s = false -> buf (l_rd s) = [].
+Definition linv (s : lst) : Prop := (l_br s = false -> buf (l_rd s) = []) /\ l_noresp s = false.
 
 Lemma iter_decomp s evs r :
   linv s ->
@@ -324,7 +324,7 @@ Proof.
         + intros H; injection H as <- <- <-. auto.
         + destruct (tl (l_rd s)); [discriminate|]. destruct (1 <? l_num s + 1)%N; discriminate.
       - apply orb_false_iff in Hc as [Hc _]. apply negb_false_iff in Hc. auto. }
-    apply first_byte_got in Hfb as [Hne HS]; [|exact Hinv].
+    apply first_byte_got in Hfb as [Hne HS]; [|exact (proj1 Hinv)].
     destruct (serve_req F cfg E s b0 cs0 fbr) as [evs0 r0] eqn:Hsr.
     intros H; injection H as <- <-. right. right.
     apply serve_req_spec in Hsr as (fl & mid & tailev & -> & H1 & H2 & H3); [|exact HS].
@@ -377,11 +377,12 @@ Proof.
   destruct Ht as [[H _]|[[H _]|Ht]]; try discriminate.
   destruct Ht as (q & cont & cc0 & st0 & br & fbr & b & cs & off & -> & Hr & Hc0 & Hfb & Hst0 & Hk).
   symmetry in Hr. pose proof (fr_sts (l_num s + 1)%N q cont cc0 st0 br fbr b cs (tl (l_rd s)) off
-     (unflushed_from (unflushed_from (l_dirty s) fl) mid)) as Hsts. rewrite Hr in Hsts.
-  apply fr_next in Hr as (N1 & N2 & N3 & N4 & N5 & N6 & N7); [|exact Hc0].
+     (unflushed_from (unflushed_from (l_dirty s) fl) mid) (l_noresp s)) as Hsts. rewrite Hr in Hsts.
+  apply fr_next in Hr as (N1 & N2 & N3 & N4 & N5 & N6 & N7 & N8); [|exact Hc0].
   destruct (Hk N7) as (k & _ & Hk2 & Hk3 & Hk4 & Hk5).
   repeat split.
   - unfold linv. rewrite N2, N4. cbn. exact Hk5.
+  - exact N8.
   - exact N1.
   - exists k. split; [exact Hk3|]. rewrite N4, N5. unfold remaining at 1. cbn. auto.
   - rewrite N6. cbn. rewrite !unflushed_app. reflexivity.
@@ -410,9 +411,9 @@ Proof.
     + right. left. reflexivity.
     + destruct Ht as (q & cont & cc0 & st0 & br & fbr & b & cs & off & -> & -> & _).
       pose proof (fr_sts (l_num s + 1)%N q cont cc0 st0 br fbr b cs (tl (l_rd s)) off
-                    (unflushed_from (unflushed_from (l_dirty s) fl) mid)) as Hsts.
+                    (unflushed_from (unflushed_from (l_dirty s) fl) mid) (l_noresp s)) as Hsts.
       destruct (snd (FR (l_num s + 1)%N q cont cc0 st0 br fbr b cs (tl (l_rd s)) off
-                    (unflushed_from (unflushed_from (l_dirty s) fl) mid))).
+                    (unflushed_from (unflushed_from (l_dirty s) fl) mid) (l_noresp s))).
       * rewrite Hsts. reflexivity.
       * destruct Hsts as [-> | ->]; auto.
       * rewrite Hsts. reflexivity.
@@ -506,11 +507,11 @@ Definition no_hijack (l : list event) : bool := forallb (fun e => negb (is_hijac
 Lemma no_hijack_app a b : no_hijack (a ++ b) = no_hijack a && no_hijack b.
 Proof. apply forallb_app. Qed.
 
-Lemma fr_nohijack num q cont cc0 st0 br fbr b cs t off dirty :
-  snd (FR num q cont cc0 st0 br fbr b cs t off dirty) <> ExitHijack ->
-  no_hijack (fst (FR num q cont cc0 st0 br fbr b cs t off dirty)) = true.
+Lemma fr_nohijack num q cont cc0 st0 br fbr b cs t off dirty nr0 :
+  snd (FR num q cont cc0 st0 br fbr b cs t off dirty nr0) <> ExitHijack ->
+  no_hijack (fst (FR num q cont cc0 st0 br fbr b cs t off dirty nr0)) = true.
 Proof.
-  fr_split num q cont cc0 st0 br b dirty; cbn; auto; congruence.
+  fr_split num q cont cc0 st0 br b dirty nr0; cbn; auto; congruence.
 Qed.
 
 (* what is known at the moment the hijack handler is started *)
@@ -520,9 +521,9 @@ Record hijack_facts (S0 : bytes) (d0 : bool) (pre : list event) (src : hj_src) (
   hf_req : exists num q off k,
       In (Dispatch num q) pre /\ framed F (skipn off S0) q k /\
       hb ++ concat hcs = skipn (off + k) S0 /\ off + k <= length S0 /\
-      h_hijack (req_hstate E num q true StatusOK) = true /\
-      (h_noresp (req_hstate E num q true StatusOK) = false ->
-         In (Resp (resp_of num q true (req_hstate E num q true StatusOK) false)) pre);
+      h_hijack (req_hstate E num q true StatusOK false) = true /\
+      (h_noresp (req_hstate E num q true StatusOK false) = false ->
+         In (Resp (resp_of num q true (req_hstate E num q true StatusOK false) false)) pre);
   hf_conn : src = HjConn -> hb = []
 }.
 
@@ -553,10 +554,11 @@ Proof.
   destruct Hrun as (avail & fl & mid & tailev & -> & Hav & Hfl & Hmid & fbr0 & Hfbr0 & Ht).
   destruct Ht as [[H _]|[[H _]|Ht]]; try discriminate.
   destruct Ht as (q & cont & cc0 & st0 & br & fbr & b & cs & off & -> & Hr & Hc0 & Hfb & Hst0 & Hk).
+  pose proof (proj2 Hinv) as Hnr0. rewrite Hnr0 in Hr. rewrite Hnr0.
   symmetry in Hr. apply fr_hijack in Hr as (R1 & R2 & R3 & R4 & R5 & R6 & R7).
   destruct (Hst0 R4) as [-> ->]. destruct (Hk R4) as (k & K1 & K2 & K3 & K4 & K5). subst cont.
   set (d := unflushed_from (unflushed_from (l_dirty s) fl) mid) in *.
-  set (pre0 := removelast (fst (FR (l_num s + 1)%N q true false StatusOK br fbr b cs (tl (l_rd s)) off d))) in *.
+  set (pre0 := removelast (fst (FR (l_num s + 1)%N q true false StatusOK br fbr b cs (tl (l_rd s)) off d false))) in *.
   exists (St StActive :: ParseAt (l_off s) avail :: fl ++ mid ++ pre0), (hj_src_of br fbr), b, cs.
   split.
   - rewrite R1. cbn. rewrite <- !app_assoc. reflexivity.
@@ -624,7 +626,7 @@ Qed.
 (* the handler's Set("Connection", v) values carry a close option only when they are exactly "close" *)
 Definition handler_guard : Prop := forall num q, ops_guard (handler E num q).
 
-Lemma req_hstate_clean num q cont st0 : handler_guard -> conn_clean (h_rh (req_hstate E num q cont st0)).
+Lemma req_hstate_clean num q cont st0 nr0 : handler_guard -> conn_clean (h_rh (req_hstate E num q cont st0 nr0)).
 Proof.
   intros Hg. unfold req_hstate. destruct cont; [apply run_handler_clean, Hg|apply conn_clean_init].
 Qed.
@@ -632,13 +634,13 @@ Qed.
 Lemma resp_close_true num q cont h : has_close (r_conn (resp_of num q cont h true)) = true.
 Proof. apply written_set_close. Qed.
 
-Lemma resp_close_false num q cont cc0 st0 :
+Lemma resp_close_false num q cont cc0 st0 nr0 :
   handler_guard ->
-  close_decision cfg E num q cc0 (req_hstate E num q cont st0) = false ->
-  has_close (r_conn (resp_of num q cont (req_hstate E num q cont st0) false)) = false.
+  close_decision cfg E num q cc0 (req_hstate E num q cont st0 nr0) = false ->
+  has_close (r_conn (resp_of num q cont (req_hstate E num q cont st0 nr0) false)) = false.
 Proof.
   intros Hg Hcc. cbn [resp_of r_conn]. unfold final_rhdr.
-  assert (Hcl : rh_close (h_rh (req_hstate E num q cont st0)) = false).
+  assert (Hcl : rh_close (h_rh (req_hstate E num q cont st0 nr0)) = false).
   { unfold close_decision in Hcc. repeat (apply orb_false_iff in Hcc as [Hcc ?]). assumption. }
   destruct (negb (q_http11 q)).
   - apply written_no_close; [apply conn_clean_keepalive|exact Hcl].
@@ -654,52 +656,52 @@ Proof.
   destruct e; auto. rewrite H1. cbn. auto.
 Qed.
 
-Lemma fr_conn_ok num q cont cc0 st0 br fbr b cs t off dirty post :
+Lemma fr_conn_ok num q cont cc0 st0 br fbr b cs t off dirty nr0 post :
   handler_guard ->
-  (snd (FR num q cont cc0 st0 br fbr b cs t off dirty) = Exit -> forallb closing_ev post = true) ->
+  (snd (FR num q cont cc0 st0 br fbr b cs t off dirty nr0) = Exit -> forallb closing_ev post = true) ->
   conn_ok post = true ->
-  conn_ok (fst (FR num q cont cc0 st0 br fbr b cs t off dirty) ++ post) = true.
+  conn_ok (fst (FR num q cont cc0 st0 br fbr b cs t off dirty nr0) ++ post) = true.
 Proof.
   intros Hg.
-  pose proof (resp_close_true num q cont (req_hstate E num q cont st0)) as Hct.
-  pose proof (resp_close_false num q cont cc0 st0 Hg) as Hcf.
-  fr_split num q cont cc0 st0 br b dirty; cbn [fst snd app conn_ok negb andb orb]; intros Hp Hc;
+  pose proof (resp_close_true num q cont (req_hstate E num q cont st0 nr0)) as Hct.
+  pose proof (resp_close_false num q cont cc0 st0 nr0 Hg) as Hcf.
+  fr_split num q cont cc0 st0 br b dirty nr0; cbn [fst snd app conn_ok negb andb orb]; intros Hp Hc;
     try specialize (Hp eq_refl); try specialize (Hcf eq_refl);
     rewrite ?Hct, ?Hcf; cbn [forallb closing_ev stays_open skip_flush andb]; rewrite ?Hp, ?Hc, ?orb_true_r; reflexivity.
 Qed.
 
-Lemma fr_reasons_ok num q cont cc0 st0 br fbr b cs t off dirty post :
-  (cont = true -> st0 = StatusOK /\ cc0 = false) ->
-  (snd (FR num q cont cc0 st0 br fbr b cs t off dirty) = Exit -> forallb closing_ev post = true) ->
+Lemma fr_reasons_ok num q cont cc0 st0 br fbr b cs t off dirty nr0 post :
+  nr0 = false -> (cont = true -> st0 = StatusOK /\ cc0 = false) ->
+  (snd (FR num q cont cc0 st0 br fbr b cs t off dirty nr0) = Exit -> forallb closing_ev post = true) ->
   reasons_ok cfg E post = true ->
-  reasons_ok cfg E (fst (FR num q cont cc0 st0 br fbr b cs t off dirty) ++ post) = true.
+  reasons_ok cfg E (fst (FR num q cont cc0 st0 br fbr b cs t off dirty nr0) ++ post) = true.
 Proof.
-  intros Hst0.
-  pose proof (resp_close_true num q cont (req_hstate E num q cont st0)) as Hct.
+  intros -> Hst0.
+  pose proof (resp_close_true num q cont (req_hstate E num q cont st0 false)) as Hct.
   assert (Hrs : cont = true ->
-            (close_reason cfg E num q = true -> close_decision cfg E num q cc0 (req_hstate E num q cont st0) = true) /\
-            response_suppressed E num q = h_noresp (req_hstate E num q cont st0) && h_hijack (req_hstate E num q cont st0)).
+            (close_reason cfg E num q = true -> close_decision cfg E num q cc0 (req_hstate E num q cont st0 false) = true) /\
+            response_suppressed E num q = h_noresp (req_hstate E num q cont st0 false) && h_hijack (req_hstate E num q cont st0 false)).
   { intros Hc. destruct (Hst0 Hc) as [-> ->]. subst cont. split; [|reflexivity].
     unfold close_reason, close_decision, handler_state. intros H.
     repeat (apply orb_true_iff in H as [H|H]); rewrite H, ?orb_true_r; reflexivity. }
-  fr_split num q cont cc0 st0 br b dirty; cbn [fst snd app reasons_ok negb andb orb]; intros Hp Hc;
+  fr_split num q cont cc0 st0 br b dirty false; cbn [fst snd app reasons_ok negb andb orb]; intros Hp Hc;
     try specialize (Hp eq_refl);
     try (destruct (Hrs eq_refl) as [Hrs1 ->]; rewrite ?Hnr, ?Hhj; cbn [andb negb];
          try (destruct (close_reason cfg E num q); [specialize (Hrs1 eq_refl); try discriminate|]; cbn [andb]));
     rewrite ?Hct; cbn [forallb closing_ev andb reasons_ok]; rewrite ?Hp, ?Hc, ?andb_false_r; reflexivity.
 Qed.
 
-Lemma fr_http10_ok num q cont cc0 st0 br fbr b cs t off dirty post :
+Lemma fr_http10_ok num q cont cc0 st0 br fbr b cs t off dirty nr0 post :
   http10_ok post = true ->
-  http10_ok (fst (FR num q cont cc0 st0 br fbr b cs t off dirty) ++ post) = true.
+  http10_ok (fst (FR num q cont cc0 st0 br fbr b cs t off dirty nr0) ++ post) = true.
 Proof.
-  assert (Hk : forall cc, keepalive_marked (q_http11 q) (resp_of num q cont (req_hstate E num q cont st0) cc) = true).
+  assert (Hk : forall cc, keepalive_marked (q_http11 q) (resp_of num q cont (req_hstate E num q cont st0 nr0) cc) = true).
   { intros cc. unfold keepalive_marked. cbn [resp_of r_conn]. unfold final_rhdr. destruct cc.
     - rewrite written_set_close. rewrite orb_true_r. reflexivity.
     - destruct (q_http11 q); [reflexivity|]. cbn [negb orb].
       unfold rhdr_written, rhdr_set_nonspecial. cbn [rh_conn rh_close]. rewrite has_option_app.
       apply orb_true_iff; right. apply orb_true_iff; left. exact has_keepalive_keepalive. }
-  fr_split num q cont cc0 st0 br b dirty; cbn [fst snd app http10_ok negb andb orb]; intros Hc; rewrite ?Hk, ?Hc; reflexivity.
+  fr_split num q cont cc0 st0 br b dirty nr0; cbn [fst snd app http10_ok negb andb orb]; intros Hc; rewrite ?Hk, ?Hc; reflexivity.
 Qed.
 
 Definition nodisp (l : list event) : bool :=
@@ -773,10 +775,10 @@ Hypothesis P_prelude : forall a x,
   P (a ++ x) = P x.
 Hypothesis P_err : forall r post, r_conn r = [strClose] -> forallb closing_ev post = true -> P post = true ->
   P (Resp r :: Flush :: post) = true.
-Hypothesis P_fr : forall num q cont cc0 st0 br fbr b cs t off dirty post,
+Hypothesis P_fr : forall num q cont cc0 st0 br fbr b cs t off dirty post nr0, nr0 = false ->
   (cont = true -> st0 = StatusOK /\ cc0 = false) ->
-  (snd (FR num q cont cc0 st0 br fbr b cs t off dirty) = Exit -> forallb closing_ev post = true) ->
-  P post = true -> P (fst (FR num q cont cc0 st0 br fbr b cs t off dirty) ++ post) = true.
+  (snd (FR num q cont cc0 st0 br fbr b cs t off dirty nr0) = Exit -> forallb closing_ev post = true) ->
+  P post = true -> P (fst (FR num q cont cc0 st0 br fbr b cs t off dirty nr0) ++ post) = true.
 
 Lemma iter_pred s evs r post :
   linv s -> serve_iter F cfg E s = (evs, r) ->
@@ -795,7 +797,7 @@ Proof.
     + destruct (unflushed_from (l_dirty s) fl); [|exact Hc]. rewrite (P_prelude [Drop]); auto.
     + cbn. apply P_err; auto.
     + destruct Ht as (q & cont & cc0 & st0 & br & fbr & b & cs & off & -> & -> & _ & _ & Hst0 & _).
-      apply P_fr; auto.
+      apply P_fr; auto. exact (proj2 Hinv).
 Qed.
 
 Hypothesis P_nil_like : forall l, forallb (fun e => match e with Dispatch _ _ | Resp _ => false | _ => true end) l = true -> P l = true.
@@ -928,9 +930,9 @@ Theorem response_before_handler en ad rd src hb hcs :
   exists pre post num q,
     serve_conn F cfg E en ad rd = pre ++ HijackEv src hb hcs :: post /\
     unflushed_from false pre = false /\
-    In (Dispatch num q) pre /\ h_hijack (req_hstate E num q true StatusOK) = true /\
-    (h_noresp (req_hstate E num q true StatusOK) = false ->
-       In (Resp (resp_of num q true (req_hstate E num q true StatusOK) false)) pre).
+    In (Dispatch num q) pre /\ h_hijack (req_hstate E num q true StatusOK false) = true /\
+    (h_noresp (req_hstate E num q true StatusOK false) = false ->
+       In (Resp (resp_of num q true (req_hstate E num q true StatusOK false) false)) pre).
 Proof.
   intros H. apply hijack_shape in H as (pre & Heq & [F1 F2 F3 F4] & _).
   destruct F3 as (num & q & off & k & G1 & G2 & G3 & G4 & G5 & G6).
@@ -943,7 +945,7 @@ Theorem bytes_intact en ad rd src hb hcs :
   In (HijackEv src hb hcs) (serve_conn F cfg E en ad rd) ->
   exists pre post num q off k,
     serve_conn F cfg E en ad rd = pre ++ HijackEv src hb hcs :: post /\
-    In (Dispatch num q) pre /\ h_hijack (req_hstate E num q true StatusOK) = true /\
+    In (Dispatch num q) pre /\ h_hijack (req_hstate E num q true StatusOK false) = true /\
     framed F (skipn off (remaining rd)) q k /\
     hb ++ concat hcs = skipn (off + k) (remaining rd) /\
     forall n, hijack_in hb hcs n = firstn n (skipn (off + k) (remaining rd)).
@@ -993,9 +995,9 @@ Proof.
         apply in_app_or in Hin as [Hin|Hin].
         { destruct (l_dirty s && _); cbn in Hin; intuition discriminate. }
         revert Hin.
-        assert (Hfr : forall num q cont cc0 st0 br fbr0 b0 cs0 t off d, ~ In Close (fst (FR num q cont cc0 st0 br fbr0 b0 cs0 t off d))).
-        { intros num q cont cc0 st0 br fbr0 b0 cs0 t off d.
-          fr_split num q cont cc0 st0 br b0 d; cbn; intuition discriminate. }
+        assert (Hfr : forall num q cont cc0 st0 br fbr0 b0 cs0 t off d nr0, ~ In Close (fst (FR num q cont cc0 st0 br fbr0 b0 cs0 t off d nr0))).
+        { intros num q cont cc0 st0 br fbr0 b0 cs0 t off d nr0.
+          fr_split num q cont cc0 st0 br b0 d nr0; cbn; intuition discriminate. }
         assert (Hsil : forall d, ~ In Close (fst (silent_exit d))) by (intros []; cbn; intuition discriminate).
         assert (Herr : forall e, ~ In Close (fst (error_exit e))) by (intros e; cbn; intuition discriminate).
         destruct (read_head F b cs) as [q hn b1 cs1|e|b']; [|apply Herr|destruct (head_end F b' (tl (l_rd s))); [apply Herr|apply Hsil]].
@@ -1004,8 +1006,8 @@ Proof.
         + destruct (release_rule cfg (skipn hn b1) fbr) as [[br fbr'] b3].
           assert (Hgo : ~ In Close (fst (match read_body F q b3 cs1 with
              | RbOk bn b4 cs4 => let '(br2, fbr2, b6) := release_rule cfg (skipn bn b4) (br && fbr') in
-                 ([Resp continue_resp; Flush] ++ fst (FR (l_num s + 1)%N q true false StatusOK br2 fbr2 b6 cs4 (tl (l_rd s)) (l_off s + hn + bn) false),
-                  snd (FR (l_num s + 1)%N q true false StatusOK br2 fbr2 b6 cs4 (tl (l_rd s)) (l_off s + hn + bn) false))
+                 ([Resp continue_resp; Flush] ++ fst (FR (l_num s + 1)%N q true false StatusOK br2 fbr2 b6 cs4 (tl (l_rd s)) (l_off s + hn + bn) false (l_noresp s)),
+                  snd (FR (l_num s + 1)%N q true false StatusOK br2 fbr2 b6 cs4 (tl (l_rd s)) (l_off s + hn + bn) false (l_noresp s)))
              | RbErr e => ([Resp continue_resp; Flush] ++ fst (error_exit e), Exit)
              | RbEnd b' => ([Resp continue_resp; Flush] ++ fst (error_exit match body_end F q b' (tl (l_rd s)) with Some e => e | None => EcOther end), Exit)
              end))).
